@@ -384,6 +384,19 @@ class SBool:
     def __hash__(self):
         return hash(self.t)
 
+    # comparisons with numbers (True > 0.0 etc.): via the 0/1 value
+    def __gt__(self, o):
+        return self._num() > o
+
+    def __ge__(self, o):
+        return self._num() >= o
+
+    def __lt__(self, o):
+        return self._num() < o
+
+    def __le__(self, o):
+        return self._num() <= o
+
     # arithmetic on booleans (numpy sums masks)
     def _num(self):
         return SInt(z3.If(self.t, z3.IntVal(1), z3.IntVal(0)))
